@@ -253,7 +253,7 @@ func init() {
 						}
 						n++
 						asGiven := true
-						for _, o := range p.origins(st.Val, OriginOpts{}) {
+						for _, o := range p.origins(st.Val, OriginOpts{ThroughCall: p.passThroughArgs}) {
 							switch x := o.(type) {
 							case *ssa.Parameter, *ssa.Const:
 							case *ssa.Call:
@@ -1765,4 +1765,41 @@ func init() {
 			}
 		},
 	})
+}
+
+// passThroughArgs: a call of a module function that hands back one of its parameters or nil (a filter such as
+// fieldFallback(data): the data itself unless it is a map) stands for those arguments.
+func (p *Prog) passThroughArgs(c *ssa.Call) []ssa.Value {
+	callee := c.Call.StaticCallee()
+	if callee == nil || !inModule(callee) || len(callee.Blocks) == 0 || c.Call.IsInvoke() {
+		return nil
+	}
+	var out []ssa.Value
+	for _, ret := range returnsOf(callee) {
+		if len(ret.Results) != 1 {
+			return nil
+		}
+		for _, o := range p.origins(ret.Results[0], OriginOpts{}) {
+			switch x := o.(type) {
+			case *ssa.Const:
+				if x.Value != nil {
+					return nil
+				}
+			case *ssa.Parameter:
+				idx := -1
+				for i, prm := range callee.Params {
+					if prm == x {
+						idx = i
+					}
+				}
+				if idx < 0 || idx >= len(c.Call.Args) {
+					return nil
+				}
+				out = append(out, c.Call.Args[idx])
+			default:
+				return nil
+			}
+		}
+	}
+	return out
 }
